@@ -223,6 +223,7 @@ def gen(i, R, tier, force_mode=None):
     swarm = {
         "set_policy": sw.choice(("mixed", "mixed", "shuffled", "reversed", "rotate", "insertion")),
         "walk_policy": sw.choice(("shuffled", "shuffled", "reversed", "sorted")),
+        "dot_root": sw.random() < 0.12,
         "mode": sw.choice(("library", "library", "process")),
         "builtin_set": sw.random() < 0.1,
     }
